@@ -88,7 +88,7 @@ def _wrap_scan():
                 valid = False
             if valid:
                 try:
-                    rscan.model(str(a["root_path"]), str(a["module_path"]), a["_globs"], a["_regexes"])
+                    rscan.model(os.path.normpath(str(a["root_path"])), os.path.normpath(str(a["module_path"])), a["_globs"], a["_regexes"])
                 except (SyntaxError, ValueError) as e2:
                     # the reference scanner cannot read the tree either: the DRIVER wrote an illegal source file -
                     # that is a defect of the workload, never a verdict about the library
@@ -131,7 +131,8 @@ def _wrap_scan():
 
 def _judge_scan(se: ScanEvent) -> None:
     a = se.args
-    root, mp = str(a["root_path"]), str(a["module_path"])
+    # '..' components are the caller's spelling of a directory; the reference walk starts from the directories meant
+    root, mp = os.path.normpath(str(a["root_path"])), os.path.normpath(str(a["module_path"]))
     m = rscan.model(root, mp, a["_globs"], a["_regexes"])
     se.model = m
     ex = rscan.expect(m, bool(a["exclude_external_libraries"]), a["level_limit"], a["_ext_globs"], a["_ext_regexes"])
